@@ -1267,6 +1267,22 @@ def _delta_integrate(prog: Program, col: Collector, refs: Refs, cat: Catalogue):
                     derived.add(st.targets[0].id)
             ok = any(isinstance(c, ast.Compare) and len(c.ops) == 1 and isinstance(c.ops[0], ast.In) and isinstance(c.left, ast.Name) and c.left.id == key
                      and any(isinstance(x, ast.Name) and x.id in derived for x in ast.walk(c.comparators[0])) for c in g.ifs)
+            # ... and ALL of them: the same pairs are substituted into the Delta to eliminate it, so the set of names must not be
+            # narrowed to what the integrand happens to mention
+            integrandn = f.positional[1]
+            narrowed = None
+            for st in walk_no_nested(f.node):
+                if isinstance(st, ast.Assign) and len(st.targets) == 1 and isinstance(st.targets[0], ast.Name) and st.targets[0].id in derived:
+                    for x in ast.walk(st.value):
+                        is_meet = (isinstance(x, ast.Call) and isinstance(x.func, ast.Attribute) and x.func.attr == "intersection") or (isinstance(x, ast.BinOp) and isinstance(x.op, ast.BitAnd))
+                        if is_meet and any(isinstance(y, ast.Attribute) and y.attr in ("inputs", "input_vars") and norm(y.value) == integrandn for y in ast.walk(x)):
+                            narrowed = st
+            for c_ in g.ifs:
+                if any(isinstance(y, ast.Attribute) and y.attr in ("inputs", "input_vars") and norm(y.value) == integrandn for y in ast.walk(c_)):
+                    narrowed = narrowed or cp
+            col.check(narrowed is None, f"{f.fq}::all integrated names", "every integrated name of the Delta is substituted, whether or not the integrand mentions it",
+                      f"the names that are substituted are narrowed to the inputs of `{integrandn}`: the same pairs eliminate the Delta, so integrating over a name the integrand does not "
+                      "mention leaves the Delta (and the name as a free input) in the result instead of returning the integrand", f.loc(narrowed) if narrowed is not None else f.loc(cp))
             col.check(ok, f"{f.fq}::points substituted", "only the points of names that are being integrated are substituted",
                       f"every (name, point) pair of the Delta is substituted into the integrand, not only those with `name` among `{rvn}`: a name the Delta binds but that is not "
                       "integrated disappears from the result's inputs", f.loc(cp))
